@@ -692,6 +692,41 @@ func genTwoCP(emit emitFn, thorough bool) {
 	}
 }
 
+// ---------- family F: two CPs, handshaked (iomode:sync) link ----------
+func genSyncTwoCP(emit emitFn) {
+	producers := [][]string{
+		{"entry la", "la:", "inc r0", "mov o0, r0", "j la"},
+		{"la:", "rset r0, 0x10", "entry lb", "lb:", "inc r0", "mov o0, r0", "j lb"}, // entry != line 0
+		{"entry la", "la:", "rset r0, 3", "lb:", "r2owa r0, o0", "add r0, r0", "j lb"},
+	}
+	consumers := [][]string{
+		{"entry la", "la:", "mov r0, i0", "r2o r0, o0", "j la"},
+		{"entry la", "la:", "i2rw r1, i0", "inc r1", "r2o r1, o0", "nop", "j la"},
+		{"entry lb", "la:", "inc r1", "lb:", "mov r0, i0", "add r0, r1", "r2o r0, o0", "j la"}, // entry != line 0
+	}
+	for pi, p := range producers {
+		for ci, c := range consumers {
+			for _, cpOrder := range []int{0, 1} {
+				for _, secOrder := range []int{0, 1} {
+					for _, rsize := range []int{8, 16} {
+						secs := []secText{{"pa", ".romtext", "sync", p}, {"pb", ".romtext", "sync", c}}
+						if secOrder == 1 {
+							secs[0], secs[1] = secs[1], secs[0]
+						}
+						cps := []string{"cpdef p0 romcode: pa, ramsize:8", "cpdef p1 romcode: pb, ramsize:8"}
+						if cpOrder == 1 {
+							cps[0], cps[1] = cps[1], cps[0]
+						}
+						metas := append(cps, "ioatt lx cp: p0, index:0, type:output", "ioatt lx cp: p1, index:0, type:input",
+							"ioatt ly cp: p1, index:0, type:output", "ioatt ly cp: bm, index:0, type:output")
+						emit(renderSource("", nil, false, secs, metas, rsize), fmt.Sprintf("sync2cp|prod%d|cons%d|cpdef-order%d|section-order%d|r%d", pi, ci, cpOrder, secOrder, rsize))
+					}
+				}
+			}
+		}
+	}
+}
+
 // GenerateAll enumerates every family for the tier.
 func GenerateAll(thorough bool, emit emitFn) map[string]any {
 	bounds := map[string]any{}
@@ -699,14 +734,17 @@ func GenerateAll(thorough bool, emit emitFn) map[string]any {
 		for n := 1; n <= 3; n++ {
 			genControlFlow(emit, n, 3, false, true, 8)
 		}
-		genControlFlow(emit, 2, 2, true, true, 16)
+		genControlFlow(emit, 4, 1, false, true, 8)
+		genControlFlow(emit, 1, 3, true, true, 16)
+		genControlFlow(emit, 2, 3, true, true, 16)
+		genControlFlow(emit, 3, 2, true, true, 16)
 		genControlFlow(emit, 3, 1, true, true, 32)
 		genLong(emit, 5, 2)
 		genForms(emit, 1, []int{8, 16, 32})
-		genForms(emit, 2, []int{8})
-		bounds["control_flow"] = "n<=3 instr over {inc,r2o,j L}, 1..3 labels at every position multiset, entry at every line position naming every label; + {jz} for (n=2,l<=2,r16),(n=3,l=1,r32)"
+		genForms(emit, 2, []int{8, 16, 32})
+		bounds["control_flow"] = "n<=3 instr over {inc,r2o,j L}, 1..3 labels at every position multiset, entry at every line position naming every label (r8); n=4 with 1 label (r8); + {jz r0 L} for (n<=2,l<=3,r16),(n=3,l<=2,r16),(n=3,l=1,r32)"
 		bounds["long"] = "n=5, <=2 labels (distinct lines), <=2 jumps at every position pair, entry first/last"
-		bounds["forms"] = "every instruction form x operands (2 regs): sequences of length 1 (r8,16,32) and 2 (r8)"
+		bounds["forms"] = "every instruction form x operands (2 regs): sequences of length 1 and 2 (r8,16,32)"
 	} else {
 		for n := 1; n <= 4; n++ {
 			genControlFlow(emit, n, 3, false, true, 8)
@@ -715,12 +753,13 @@ func GenerateAll(thorough bool, emit emitFn) map[string]any {
 			genControlFlow(emit, n, 3, true, true, 16)
 		}
 		genControlFlow(emit, 4, 1, true, true, 32)
+		genControlFlow(emit, 4, 2, true, false, 32)
 		genLong(emit, 5, 3)
 		genLong(emit, 6, 3)
 		genForms(emit, 1, []int{8, 16, 32})
 		genForms(emit, 2, []int{8, 16, 32})
 		genForms(emit, 3, []int{8})
-		bounds["control_flow"] = "n<=4 instr over {inc,r2o,j L}, 1..3 labels at every position multiset, entry at every line position naming every label (r8); n<=3 over {inc,r2o,j L,jz r0 L} (r16); n=4,l=1 with jz (r32)"
+		bounds["control_flow"] = "n<=4 instr over {inc,r2o,j L}, 1..3 labels at every position multiset, entry at every line position naming every label (r8); n<=3 over {inc,r2o,j L,jz r0 L} (r16); n=4,l=1 with jz (r32); n=4,l<=2 with jz, entry at first/middle/last/after-label positions only (r32)"
 		bounds["long"] = "n=5..6, <=3 labels (distinct lines), <=2 jumps at every position pair, entry first/last"
 		bounds["forms"] = "every instruction form x operands (2 regs): sequences of length 1,2 (r8,16,32) and 3 (r8)"
 	}
@@ -728,6 +767,8 @@ func GenerateAll(thorough bool, emit emitFn) map[string]any {
 	genMacros(emit, thorough)
 	genData(emit)
 	genTwoCP(emit, thorough)
+	genSyncTwoCP(emit)
+	bounds["sync_two_cp"] = "3 producers x 3 consumers over a handshaked (iomode:sync) link x cpdef order x section order x r{8,16}; compared as value sequences (timing independent)"
 	bounds["literals"] = "10 values x 6-8 notations (dec,0x,0X,0x0,0b,0b0,0d,0u) x {rset,mov} x r{8,16,32} x bm-output swap; sync mov forms (static oracle)"
 	bounds["macros"] = "8 macro definitions (0..2 args: reg/label/literal args) x nesting {none,first,last} x 0..2 uses at every gap pair x label-before-call x defined before/after; 1 macro shared by 2 CPs"
 	bounds["data"] = "4 romdata layouts x code padding 0..2 x {mov,rset} rom:symbol x every symbol pair x section order"
